@@ -87,6 +87,8 @@ def walk(rd, nsectors, verify, rd_sym=None, is_concrete=lambda x: isinstance(x, 
     root_lbn = le(fsd, 404, 4)
     tree = {}
     symlinks = {}
+    refs = {}          # File Entry block -> number of File Identifier Descriptors identifying it (ECMA-167 4/14.9.6)
+    linkcount = {}     # File Entry block -> (recorded File Link Count, is directory)
     blocks = []        # every partition block referenced (for the partition-length check)
     todo = [('', root_lbn, root_lbn)]
     ndirs = nfiles = 0
@@ -96,6 +98,7 @@ def walk(rd, nsectors, verify, rd_sym=None, is_concrete=lambda x: isinstance(x, 
         ok = tag(fe, 261, lbn, ok, verify)
         blocks.append(lbn)
         ftype = fe[16 + 11]
+        linkcount[lbn] = (le(fe, 48, 2), ftype == 4)
         info_len = le(fe, 56, 8)
         recorded = le(fe, 64, 8)
         l_ea, l_ad = le(fe, 168, 4), le(fe, 172, 4)
@@ -108,7 +111,7 @@ def walk(rd, nsectors, verify, rd_sym=None, is_concrete=lambda x: isinstance(x, 
         if ftype == 4:
             ndirs += 1
             alen, apos = ads[0]
-            ok = ok & (alen == info_len)
+            ok = ok & (alen == info_len) & (recorded == (info_len + 2047) // 2048)
             if not is_concrete(info_len):
                 raise Bad('symbolic directory length')
             data = rd((part_start + apos) * 2048, info_len)
@@ -126,6 +129,9 @@ def walk(rd, nsectors, verify, rd_sym=None, is_concrete=lambda x: isinstance(x, 
                 rec += (4 - rec % 4) % 4
                 if verify:
                     tag(data[off:off + rec], 257, apos + off // 2048, True, True)
+                if not is_concrete(icb):
+                    raise Bad('symbolic ICB location in a File Identifier Descriptor')
+                refs[icb] = refs.get(icb, 0) + 1
                 if ch & 8:
                     # ECMA-167 4/14.4.3 / 4/8.6: the parent entry identifies the ICB of the parent directory (the root is its own parent)
                     ok = ok & (icb == parent_lbn)
@@ -160,5 +166,11 @@ def walk(rd, nsectors, verify, rd_sym=None, is_concrete=lambda x: isinstance(x, 
             if path in tree or path == '':
                 kind, icb = tree.get(path, ('f', lbn))
                 tree[path] = (kind, icb, info_len, ads[0][1] if ads else None, ftype)
+    link_ok = True
+    for lbn, (cnt, isdir) in linkcount.items():
+        if isdir:
+            ok = ok & (cnt == refs.get(lbn, 0))
+        else:
+            link_ok = link_ok & (cnt == refs.get(lbn, 0))
     return tree, ok, {'part_start': part_start, 'part_len': part_len, 'num_files': num_files, 'num_dirs': num_dirs, 'nfiles': nfiles, 'ndirs': ndirs,
-                      'blocks': blocks, 'symlinks': symlinks}
+                      'blocks': blocks, 'symlinks': symlinks, 'file_link_ok': link_ok}
